@@ -539,8 +539,11 @@ func driveRecover(c *ctx) {
 		d := add(randBig(rng, add(bigN, -1)), 1)
 		priv := privFrom(d)
 		digest := randBytes(rng, 32)
-		if i%5 == 0 {
+		switch i % 5 {
+		case 0:
 			digest = randBytes(rng, 64)
+		case 1: // digests whose leading 32 bytes are >= n (reduced mod n by every operation alike), zero, all ones
+			digest = [][]byte{bytes.Repeat([]byte{0xff}, 32), be32(bigN)[:], be32(add(bigN, 7))[:], bytes.Repeat([]byte{0xff}, 64), make([]byte, 32)}[(i/5)%5]
 		}
 		r, s, _, err := priv.SignRaw(&fixedReader{randBytes(rng, 32)}, digest)
 		if err != nil {
